@@ -95,7 +95,7 @@ fn op(with_exact: bool) -> BoxedStrategy<Op> {
             6 => Just(Op::Next),
             1 => Just(Op::Owned),
             5 => (0u8..3).prop_map(Op::ReadSet),
-            5 => (0u8..3, 1u8..8).prop_map(|(s, n)| Op::ReadExact(s, n)),
+            5 => (0u8..3, prop_oneof![12 => 1u8..8, 1 => 250u8..=255]).prop_map(|(s, n)| Op::ReadExact(s, n)),
             2 => gen::policy_any().prop_map(Op::SetPolicy),
         ]
         .boxed()
